@@ -19,7 +19,7 @@ theorem fold_sync_status (r : String → Bool) (l : List String) : ∀ (done : L
   | cons e rest ih =>
     intro done me hreach h ep hep hid
     simp only [List.foldl_cons] at hep
-    have hreach1 : ME.Reach (ME.opSetAvail me e (r e)) := ME.Reach.step (.setAvail e (r e)) hreach
+    have hreach1 : ME.Reach (ME.opSetAvail me e (r e)) := ME.Reach.stepRaw (.setAvail e (r e)) hreach
     apply ih (done ++ [e]) (ME.opSetAvail me e (r e)) hreach1 ?_ ep hep (by simpa [List.append_assoc] using hid)
     intro y hy hyd
     have hy' : y ∈ (ME.setEndpointAvailability me e (r e)).eps := by
@@ -76,7 +76,7 @@ theorem update_syncs_status {s : St} (h : G s) (d : String) (o : Opts) (f : List
       have hmes : ∀ p ∈ (o.filterMap fun p => match p.2 with
             | none => none
             | some l => match findME s p.1 with
-              | some me => some (p.1, (ME.opSetEndpoints me l).1)
+              | some me => some (p.1, (ME.step me (.setEndpoints l)).1)
               | none => (ME.init 0 0 l).map fun me => (p.1, me)),
           ∃ l, (p.1, some l) ∈ o ∧ ME.Reach p.2 ∧ ∀ e ∈ p.2.eps, e.id ∈ l := by
         intro p hp
@@ -94,8 +94,8 @@ theorem update_syncs_status {s : St} (h : G s) (d : String) (o : Opts) (f : List
             rw [hfm] at hqp
             simp only [Option.some.injEq] at hqp
             subst hqp
-            exact ⟨l, hqmem, ME.Reach.step (.setEndpoints l) (h.meReach _ (findME_mem hfm)),
-              ME.opSetEndpoints_ids_sub me l hlne⟩
+            exact ⟨l, hqmem, ME.api_step_reach (.setEndpoints l) (h.meReach _ (findME_mem hfm)),
+              ME.api_setEndpoints_ids_sub me l hlne⟩
           | none =>
             rw [hfm] at hqp
             cases hin : ME.init 0 0 l with
@@ -104,7 +104,7 @@ theorem update_syncs_status {s : St} (h : G s) (d : String) (o : Opts) (f : List
               rw [hin] at hqp
               simp only [Option.map_some, Option.some.injEq] at hqp
               subst hqp
-              exact ⟨l, hqmem, ME.Reach.init (Int.le_refl 0) (Int.le_refl 0) hin, ME.init_ids_sub hin⟩
+              exact ⟨l, hqmem, ME.api_init_reach hin, ME.api_init_ids_sub hin⟩
       intro p hp ep hep
       rw [foldl_notify_mes] at hp
       obtain ⟨p0, hp0, rfl⟩ := List.mem_map.mp hp
